@@ -83,6 +83,8 @@ func runC12(c *core.Ctx) {
 	saltRule(c, "C12.R4")
 	c20R5as(c, "C12.R5")
 	keyTextRule(c, "C12.R6")
+	c03R6(c) // shared with C03 (reported as C03.R6): key field byte ranges
+	c20R2(c) // shared with C20 (reported as C20.R2): only 32-character strings reach the decoder
 }
 
 func c12Validate(c *core.Ctx) {
